@@ -114,7 +114,11 @@ def dual_adjoint(p):
         PX = U.ref_choi_apply(J, X, ri, ci, xo, yo)
         DY = _act(D, Y, (xo, yo), (ri, ci))
         out = [("<Phi*(Y), X> against <Y, Phi(X)>  (%s)" % p["form"], np.array([U.hs(DY, X)], dtype=object if ent.mode == "sym" else complex), np.array([U.hs(Y, PX)], dtype=object if ent.mode == "sym" else complex))]
-        if ent.mode != "sym":
+        one_column = (not isinstance(D, list)) and np.asarray(D).ndim == 2 and np.asarray(D).shape[1] == 1
+        if ent.mode != "sym" and one_column:
+            # apply_channel mis-reads a one-column Choi matrix (known finding F-04e, property C04): the dual is judged through the reference action only
+            out.append(("Phi*(Y) entrywise (reference action; apply_channel not used for a one-column Choi matrix, F-04e)", DY, _adjoint_action(J, Y, ri, ci, xo, yo)))
+        elif ent.mode != "sym":
             from toqito.channel_ops import apply_channel
 
             DY2 = apply_channel(Y, D)
@@ -305,6 +309,10 @@ def _tp_family_c(p):
         return out
     if cons == "unitary":
         return [U.haar(rng, d, field)]
+    if cons == "unitary-mixture":  # r unitaries with weights w_k (a random-unitary channel): r may exceed d^2, the description is then not minimal
+        w = rng.random(r) + 0.2
+        w = w / w.sum()
+        return [np.sqrt(w[k]) * U.haar(rng, d, field) for k in range(r)]
     raise ValueError(cons)
 
 
@@ -500,6 +508,13 @@ def cases(tier, seed):
         add("dual.adjoint", base, "dual_channel/choi-arbitrary/rect-spaces/sym")
         add("dual.involution", base, "dual_channel/choi-arbitrary/rect-spaces/sym")
 
+    # a map M_{a,b} -> M_{a,b} between equal rectangular spaces: its (a^2 x b^2, non-square) Choi matrix needs no `dims`
+    for rect in ([2, 3, 2, 3], [1, 2, 1, 2], [3, 2, 3, 2], [2, 1, 2, 1]):
+        for ent_ in ("sym", "complex"):
+            base = dict(rect=rect, r=0, form="choi-arbitrary", dimform="omitted", entries=ent_, seed=seed)
+            add("dual.adjoint", base, "dual_channel/choi-arbitrary/rect-spaces/dim-omitted/%s" % ent_)
+            add("dual.involution", base, "dual_channel/choi-arbitrary/rect-spaces/dim-omitted/%s" % ent_)
+
     # ---------------- dual_channel, numeric ------------------------------------------------------------------------
     top = 5 if thorough else 4
     nseeds = 3 if thorough else 1
@@ -557,6 +572,12 @@ def cases(tier, seed):
             add("comp.frame", dict(d=d, r=r, cons="stinespring", field="complex", seed=seed), "complementary_channel/frame", d > 1)
         add("comp.entry", dict(d=d, r=1, cons="unitary", entries="complex", seed=seed), "complementary_channel/unitary", d > 1)
         add("comp.spectrum", dict(d=d, r=1, cons="unitary", seed=seed), "complementary_channel/unitary", d > 1)
+    # more Kraus operators than d^2 (a non-minimal description): every listed operator is an environment level
+    for d, r in ((1, 2), (1, 3), (2, 5), (2, 6), (3, 10)):
+        for field in ("real", "complex"):
+            base = dict(d=d, r=r, cons="unitary-mixture", field=field, seed=seed)
+            for cl in ("comp.entry", "comp.trace", "comp.spectrum"):
+                add(cl, dict(base, entries="complex") if cl == "comp.entry" else base, "complementary_channel/more-than-d2-operators/%s" % field)
     add("comp.entry", dict(d=2, r=4, cons="pauli-dyadic", entries="sym", seed=seed), "complementary_channel/dyadic/symbolic-rho")
     for d in (2, 3):
         for lay in ("F", "view", "dagger-view"):
